@@ -95,6 +95,11 @@ package zh
 //@   loop 1 decreases len(l.Source) - l.cursor
 //@   loop 2 invariant lexerWF(l) && l.cursor > old(l.cursor) && lastLineLoose(l) && (l.Lines.base == old(l.Lines.base) || fresh(l.Lines)) && startIdx == old(l.cursor) && len(l.Lines) >= old(len(l.Lines))
 //@   loop 2 decreases len(l.Source) - l.cursor
+// inside a multi-line comment every physical line break (LF, CR, CRLF, LFCR) adds exactly one entry to the line table,
+// starting right after the break; no other character adds one (C18: line numbers count physical lines)
+//@   loop 2 step [one-line-entry-per-break] (ch == syntax.RuneCR || ch == syntax.RuneLF) ==> len(l.Lines) == prev(len(l.Lines)) + 1 &&
+//@             l.Lines[len(l.Lines)-1].StartIdx == prev(l.cursor) + 1 + breakLen(ch, prev(charAt(l, l.cursor + 2)))
+//@   loop 2 step [no-entry-without-a-break] !(ch == syntax.RuneCR || ch == syntax.RuneLF) ==> len(l.Lines) == prev(len(l.Lines))
 
 // ---- string literals (C13) ----
 
